@@ -67,6 +67,13 @@ def tmCpOp (cp : ControlPoints Float) (tok : String) : Option (ControlPoints Flo
     | ["S", t, bank, vol, custom] =>
       some (cp.addSample (SamplePoint.new (tmF64OfHex t) ((SampleBank.ofInt (bank.toInt?.getD 0)).getD .none)
         (vol.toInt?.getD 0) (custom.toInt?.getD 0)), none)
+    | ["RS", t, bank, vol, custom] =>   -- struct literal: no clamping by the constructor
+      let b : SampleBank := (SampleBank.ofInt (bank.toInt?.getD 0)).getD SampleBank.none
+      let p : SamplePoint Float := ⟨tmF64OfHex t, b, vol.toInt?.getD 0, custom.toInt?.getD 0⟩
+      some (cp.addSample p, none)
+    | ["RD", t, sv, ticks] =>
+      let p : DifficultyPoint Float := ⟨tmF64OfHex t, tmF64OfHex sv, ticks == "1"⟩
+      some (cp.addDifficulty p, none)
     | _ => none
 
 def tmCpOps : ControlPoints Float → List String → List String → Option (ControlPoints Float × List String)
